@@ -66,6 +66,7 @@ func main() {
 	clientproxy.VerifSetTimings(tCheck, tWaitResp, tStartErr)
 	installProbeRecorder()
 	installPhaseMonitor()
+	startStallDetector()
 
 	if err := startSharedServer(); err != nil {
 		fmt.Fprintln(os.Stderr, "server:", err)
